@@ -546,7 +546,7 @@ func splitLoopSpec(s string) (string, int) {
 }
 
 // initSide creates the symbolic inputs of one side of a pair lemma.
-func (x *Exec) initSide(v *Verifier, pkg, key, prefix string, assumeReq bool) (*side, error) {
+func (x *Exec) initSide(v *Verifier, pkg, key, prefix string, assumeReq bool, heapNm string) (*side, error) {
 	byContract := false
 	if f := strings.Fields(key); len(f) >= 2 && f[len(f)-1] == "contract" {
 		byContract = true
@@ -560,6 +560,10 @@ func (x *Exec) initSide(v *Verifier, pkg, key, prefix string, assumeReq bool) (*
 	x.prefix = prefix
 	defer func() { x.prefix = "" }()
 	st, params := x.initialState(fn, prefix)
+	if heapNm != "" {
+		// sequential composition: this side reads the heap the other side starts from
+		st.nm = heapNm
+	}
 	fc := v.contracts.Funcs[pkg+":"+key]
 	fr := &Frame{fn: fn, fc: fc, vals: map[ssa.Value]Val{}, params: params, top: false, edgePC: map[[2]*ssa.BasicBlock]string{}}
 	for i, p := range fn.Params {
@@ -639,12 +643,16 @@ func (v *Verifier) genPair(p *Pair, combo []int64, mustWrap map[string]bool) *Ex
 	v.prewrapFor(x)
 	lp, lk := splitPkgKey(p.Pkg, p.Left, v.modPath)
 	rp, rk := splitPkgKey(p.Pkg, p.Right, v.modPath)
-	ls, err := x.initSide(v, lp, lk, "l_", true)
+	ls, err := x.initSide(v, lp, lk, "l_", true, "")
 	if err != nil {
 		x.bindingError("pair left "+p.Left, err.Error(), p.File, p.Line)
 		return x
 	}
-	rs, err := x.initSide(v, rp, rk, "r_", !p.Sequential)
+	rheap := ""
+	if p.Sequential {
+		rheap = "l_"
+	}
+	rs, err := x.initSide(v, rp, rk, "r_", !p.Sequential, rheap)
 	if err != nil {
 		x.bindingError("pair right "+p.Right, err.Error(), p.File, p.Line)
 		return x
